@@ -39,17 +39,27 @@ type fexp struct {
 // GenFetcher: the real Fetcher against the scripted TLS 1.3 peer; histories of failed and
 // successful exchanges on one fetcher.
 func GenFetcher(c *lib.Ctx) {
-	r := c.Rand.Fork("fetcher")
+	genFetcher(c, false, c.Scale(60, 500))
+	genFetcher(c, true, c.Scale(25, 200))
+}
+
+func genFetcher(c *lib.Ctx, overQUIC bool, nh int) {
+	r := c.Rand.Fork(fmt.Sprintf("fetcher-quic=%v", overQUIC))
 	host := "127.0.0.1"
-	nh := c.Scale(60, 500)
+	defPort := uint16(123)
+	newOp, quicTok, tag := "f.new", "", "tls"
+	if overQUIC {
+		defPort = 10123
+		newOp, quicTok, tag = "f.new quic", " quic=1", "quic"
+	}
 	for hi := 0; hi < nh; hi++ {
-		c.Comment(fmt.Sprintf("history %d", hi))
+		c.Comment(fmt.Sprintf("history %s %d", tag, hi))
 		var hist []string
 		do := func(op string) string {
 			hist = append(hist, op)
 			return c.Do(op)
 		}
-		do("f.new")
+		do(newOp)
 		var st fexp
 		prevFailed := false
 		idx := 0
@@ -75,6 +85,9 @@ func GenFetcher(c *lib.Ctx) {
 			drop := "no"
 			cut := -1
 			kind := r.Intn(20)
+			if overQUIC && kind >= 16 && kind <= 18 {
+				kind = 8 + r.Intn(8) // dial failures are not scripted over QUIC
+			}
 			if len(st.pool) == 0 && prevFailed && r.Chance(50) {
 				kind = 0 // retry that should succeed
 			}
@@ -192,8 +205,9 @@ func GenFetcher(c *lib.Ctx) {
 				dialTok = "1"
 				alpnTok = lib.Hex([]byte(proto))
 			}
-			op := fmt.Sprintf("f.fetch dial=%s alpn=%s host=%s stream=%s srvalpn=%s close=%s drop=%s",
-				dialTok, alpnTok, hexOf(host), hexList(nz), alpn, closeMode, drop)
+			op := fmt.Sprintf("f.fetch dial=%s alpn=%s host=%s stream=%s srvalpn=%s close=%s drop=%s%s",
+				dialTok, alpnTok, hexOf(host), hexList(nz), alpn, closeMode, drop, quicTok)
+			c.Count("transport:" + tag)
 			// ---- the contract, evaluated from the script
 			var want string
 			wasEmpty := len(st.pool) == 0
@@ -208,7 +222,7 @@ func GenFetcher(c *lib.Ctx) {
 				}
 				want = fmt.Sprintf("ok exch=false %s %s pool=%s", fmtData(d), keys, hexList(st.pool))
 			} else {
-				ok, cls, srv, prt, algo, cks := expectRead(rs, host, 123)
+				ok, cls, srv, prt, algo, cks := expectRead(rs, host, defPort)
 				if so := stopOffset(rs); cut >= 0 && (so < 0 || cut < so) {
 					ok, cls = false, "read-io"
 				}
